@@ -344,6 +344,7 @@ func first(a, _ []byte) []byte { return a }
 //@   ensures[pool] pooledIs(n48, (*ref).pointer != n48)
 //@   ensures[fan] fanOf(*ref) == old(n48.childrenLen) + 1 && implies(old(fanMin(*ref)), fanMin(*ref))
 //@   ensures[replaced] (*ref).pointer == n48 || (fresh((*ref).pointer) && Zero48(n48))
+//@   ensures[replaced_iff_full] ((*ref).pointer == n48) == (old(n48.childrenLen) < 48)
 //@   ensures[frame] frame(n48, ref.obj, (*ref).pointer) && frameSlot(ref)
 //@   loop 1 (pos)
 //@     invariant pos <= 48 && cntP(n48.children, pos) == pos
@@ -366,6 +367,7 @@ func first(a, _ []byte) []byte { return a }
 //@   ensures[pool] pooledIs(n16, (*ref).pointer != n16)
 //@   ensures[fan] fanOf(*ref) == old(n16.childrenLen) + 1 && implies(old(fanMin(*ref)), fanMin(*ref))
 //@   ensures[replaced] (*ref).pointer == n16 || (fresh((*ref).pointer) && Zero16(n16))
+//@   ensures[replaced_iff_full] ((*ref).pointer == n16) == (old(n16.childrenLen) < 16)
 //@   ensures[frame] frame(n16, ref.obj, (*ref).pointer) && frameSlot(ref)
 //@   loop 1 (i)
 //@     modifies B
@@ -385,6 +387,7 @@ func first(a, _ []byte) []byte { return a }
 //@   ensures[pool] pooledIs(n4, (*ref).pointer != n4)
 //@   ensures[fan] fanOf(*ref) == old(n4.childrenLen) + 1 && implies(old(fanMin(*ref)), fanMin(*ref))
 //@   ensures[replaced] (*ref).pointer == n4 || (fresh((*ref).pointer) && Zero4(n4))
+//@   ensures[replaced_iff_full] ((*ref).pointer == n4) == (old(n4.childrenLen) < 4)
 //@   ensures[frame] frame(n4, ref.obj, (*ref).pointer) && frameSlot(ref)
 
 //@ spec slotOK(ptr) = ptr.obj != (*ptr).pointer && allocated(ptr.obj) && ptr.obj != nil && inT((*ptr).pointer) && !pooled((*ptr).pointer)
